@@ -694,7 +694,7 @@ def batches(rng, tier):
                      "of intervals over {-1,0,1} in fresh / drawn / reset / re-parametrised states")
 
     lines = []
-    for _ in range(6000 if thorough else 600):
+    for _ in range(40000 if thorough else 1500):
         t, deco = r.choice(XTYPES)
 
         def params(t=t):
@@ -735,11 +735,11 @@ def batches(rng, tier):
                 for eng in (ENGINES if thorough else [ENGINES[k % 2]]):
                     specs.append(Spec("RS", dk=dk, t=t, deco="ps"[k % 2], eng=eng, seed=seed_for(r), acts=acts))
                 k += 1
-    for _ in range(3000 if thorough else 300):
+    for _ in range(15000 if thorough else 600):
         t, deco = r.choice(ITYPES)
         specs.append(Spec("IS", t=t, deco=deco, eng=r.choice(ENGINES), seed=seed_for(r),
                           acts=random_script(r, r.range(4, 24), lambda t=t: interval(r, t))))
-    for _ in range(3000 if thorough else 300):
+    for _ in range(15000 if thorough else 600):
         dk, t = r.choice(["ur", "no", "no"]), r.choice("fd")
         specs.append(Spec("RS", dk=dk, t=t, deco=r.choice("ps"), eng=r.choice(ENGINES), seed=seed_for(r),
                           acts=random_script(r, r.range(4, 24), lambda dk=dk, t=t: real_params(r, dk, t), stateful_eq=(dk == "ur"))))
@@ -752,7 +752,7 @@ def batches(rng, tier):
     lines = []
     for cm, el, acts in container_scripts_systematic():
         lines.append(f"XU {cm} {r.below(1 << 32)} {el} " + " ".join(acts))
-    for _ in range(2000 if thorough else 250):
+    for _ in range(12000 if thorough else 600):
         size = r.range(1, 6)
         cm = r.choice("cm")
         el = ",".join(str(r.range(-50, 50)) for _ in range(size))
